@@ -371,6 +371,26 @@ func c12Sockaddr(c *enumx.Ctx) {
 			}
 		}
 	}
+	// every address LENGTH the kernel can log: it writes exactly addrlen bytes - 16..128 for AF_INET, from 24
+	// (SIN6_LEN_RFC2133, no scope id) to 128 for AF_INET6; extra bytes are zero padding of sockaddr_storage
+	for n := 16; n <= 128; n++ {
+		if !c.Mine() {
+			continue
+		}
+		s4 := saddrIn(8080, [4]byte{10, 9, 8, 7})
+		for len(s4) < 2*n {
+			s4 += "00"
+		}
+		checkSaddr(c, s4[:2*n], map[string]string{"family": "ipv4", "port": "8080", "addr": "10.9.8.7"}, nil)
+		if n >= 24 {
+			a6 := mk("2001:db8::42")
+			s6 := saddrIn6(8443, 0, a6, 0)
+			for len(s6) < 2*n {
+				s6 += "00"
+			}
+			checkSaddr(c, s6[:2*n], map[string]string{"family": "ipv6", "port": "8443"}, net.IP(a6[:]))
+		}
+	}
 	// unix pathname sockets: path strings, with and without trailing padding
 	maxLen := 2
 	if c.Tier == "thorough" {
@@ -589,6 +609,40 @@ func c12Derived(c *enumx.Ctx) {
 				}
 				c.Nontrivial()
 			})
+		}
+	}
+	// every architecture code the tree names x the errnos that are numbered identically on every architecture
+	// (1..34): the errno rule does not depend on the arch field of the record
+	var archCodes []string
+	for code := range auparse.AuditArchNames {
+		archCodes = append(archCodes, fmt.Sprintf("%x", uint32(code)))
+	}
+	sort.Strings(archCodes)
+	archCodes = append(archCodes, "0", "ffffffff", "c00000ff")
+	for _, ac := range archCodes {
+		for e := 1; e <= 34; e++ {
+			if !c.Mine() {
+				continue
+			}
+			for _, typ := range []uint16{1300, 1326} {
+				raw := hdr + fmt.Sprintf("arch=%s syscall=1 success=no exit=-%d a0=0 items=0 pid=1 exe=\"/x\"", ac, e)
+				if typ == 1326 {
+					raw = hdr + fmt.Sprintf("auid=0 uid=0 pid=1 comm=\"x\" exe=\"/x\" sig=31 arch=%s syscall=1 compat=0 ip=0x1 code=0x0 exit=-%d", ac, e)
+				}
+				c.Begin(func() string { return raw })
+				c.Try("C12", func() {
+					m, _ := auparse.Parse(auparse.AuditMessageType(typ), raw)
+					d, err := m.Data()
+					if err != nil {
+						return // an arch the tree cannot name at all: not this generator's business
+					}
+					if v, ok := errno[d["exit"]]; !ok || v != uint64(e) {
+						c.Report("C12 exit-errno-name", fmt.Sprintf("%q: exit=%q, want the name of errno %d whatever the arch field says", raw, d["exit"], e), nil)
+						return
+					}
+					c.Nontrivial()
+				})
+			}
 		}
 	}
 	// success / res -> result ; auid / ses -> unset
